@@ -166,10 +166,17 @@ impl PartialEq for Rule {
             && self.threshold == other.threshold
             && self.duration_in_sec == other.duration_in_sec
             && self.specific_items == other.specific_items
-            && ((self.control_strategy == ControlStrategy::Reject
-                && self.burst_count == other.burst_count)
-                || (self.control_strategy == ControlStrategy::Throttling
-                    && self.max_queueing_time_ms == other.max_queueing_time_ms))
+            && match self.control_strategy {
+                ControlStrategy::Reject => self.burst_count == other.burst_count,
+                ControlStrategy::Throttling => {
+                    self.max_queueing_time_ms == other.max_queueing_time_ms
+                }
+                // a custom strategy may read either field (and a rule has to be equal to itself)
+                _ => {
+                    self.burst_count == other.burst_count
+                        && self.max_queueing_time_ms == other.max_queueing_time_ms
+                }
+            }
     }
 }
 
